@@ -59,6 +59,7 @@ type e2ePause struct {
 	Phase    string `json:"phase"`
 	ResumeMs int    `json:"resume_ms"`
 	Cycles   int    `json:"cycles"`
+	DelayMs  int    `json:"delay_ms,omitempty"` // the pause begins this long after the message
 }
 
 type e2eMut struct {
@@ -196,6 +197,7 @@ func e2eExec(c *e2eCase, work string, tr *vTrace, logLines bool) (*e2eResult, ma
 	var stopAt, resumedAt time.Time
 	var pauseMu sync.Mutex
 	pauseStarted, pausedNow := false, false
+	pauseDelayed := false
 	stopPlanned := false
 	pData, pKeep, dataAfter, nPauses := 0, 0, 0, 0
 	// steering goroutines that outlive the transfer (pause cycles) record nothing once it is over
@@ -222,6 +224,53 @@ func e2eExec(c *e2eCase, work string, tr *vTrace, logLines bool) (*e2eResult, ma
 		}
 		if c.Plan.DstErr {
 			stopAt = time.Now()
+		}
+		startPause := func(g int) {
+		if t := client(); t != nil {
+			pauseStarted = true
+			pauseMu.Lock()
+			nPauses++
+			pauseMu.Unlock()
+			stopAt = time.Now()
+			// "paused" from the moment the pause call has returned: chunks written before that are not
+			// chunks written while paused
+			tr.Emit(map[string]any{"e": "pause", "run": c.ID, "g": g}, func() {
+				t.pauseTransferringFiles()
+				pauseMu.Lock()
+				pausedNow = true
+				pauseMu.Unlock()
+			})
+			go func() {
+				cycles := pa.Cycles
+				if cycles < 1 {
+					cycles = 1
+				}
+				for i := 0; i < cycles; i++ {
+					time.Sleep(time.Duration(pa.ResumeMs) * time.Millisecond)
+					pauseMu.Lock()
+					pausedNow = false
+					resumedAt = time.Now()
+					pauseMu.Unlock()
+					if !emitLive(map[string]any{"e": "resume", "run": c.ID}, func() { t.resumeTransferringFiles() }) {
+						return
+					}
+					if i+1 < cycles {
+						time.Sleep(30 * time.Millisecond)
+						pauseMu.Lock()
+						nPauses++
+						pauseMu.Unlock()
+						if !emitLive(map[string]any{"e": "pause", "run": c.ID, "g": -1}, func() {
+							t.pauseTransferringFiles()
+							pauseMu.Lock()
+							pausedNow = true
+							pauseMu.Unlock()
+						}) {
+							return
+						}
+					}
+				}
+			}()
+		}
 		}
 		w.onMsg = func(m *e2eMsg, phase string) {
 			if sil != nil && phase == "after" && m.Dir == sil.Dir && m.K == sil.K && stopAt.IsZero() {
@@ -273,51 +322,20 @@ func e2eExec(c *e2eCase, work string, tr *vTrace, logLines bool) (*e2eResult, ma
 					apply()
 				}
 			}
-			if pa != nil && m.G == pa.G && phase == pa.Phase && !pauseStarted {
-				if t := client(); t != nil {
-					pauseStarted = true
-					pauseMu.Lock()
-					nPauses++
-					pauseMu.Unlock()
-					stopAt = time.Now()
-					// "paused" from the moment the pause call has returned: chunks written before that are not
-					// chunks written while paused
-					tr.Emit(map[string]any{"e": "pause", "run": c.ID, "g": m.G}, func() {
-						t.pauseTransferringFiles()
-						pauseMu.Lock()
-						pausedNow = true
-						pauseMu.Unlock()
-					})
+			if pa != nil && m.G == pa.G && phase == pa.Phase && !pauseStarted && !pauseDelayed {
+				if pa.DelayMs > 0 { // the pause comes DelayMs after this message (e.g. while a read is already pending)
+					pauseDelayed = true
 					go func() {
-						cycles := pa.Cycles
-						if cycles < 1 {
-							cycles = 1
-						}
-						for i := 0; i < cycles; i++ {
-							time.Sleep(time.Duration(pa.ResumeMs) * time.Millisecond)
-							pauseMu.Lock()
-							pausedNow = false
-							resumedAt = time.Now()
-							pauseMu.Unlock()
-							if !emitLive(map[string]any{"e": "resume", "run": c.ID}, func() { t.resumeTransferringFiles() }) {
-								return
-							}
-							if i+1 < cycles {
-								time.Sleep(30 * time.Millisecond)
-								pauseMu.Lock()
-								nPauses++
-								pauseMu.Unlock()
-								if !emitLive(map[string]any{"e": "pause", "run": c.ID, "g": -1}, func() {
-									t.pauseTransferringFiles()
-									pauseMu.Lock()
-									pausedNow = true
-									pauseMu.Unlock()
-								}) {
-									return
-								}
-							}
+						time.Sleep(time.Duration(pa.DelayMs) * time.Millisecond)
+						overMu.Lock()
+						dead := over
+						overMu.Unlock()
+						if !dead {
+							startPause(-1)
 						}
 					}()
+				} else {
+					startPause(m.G)
 				}
 			}
 			// what the paused client writes: file data vs keep-alive lines
